@@ -58,7 +58,7 @@ def root_parity(f, o, hops=0):
     return (("local", p["l"]), 1)
 
 
-def run(ctx):
+def _run(ctx):
     prog = ctx.prog
     # ------------------------------------------------------------ anchors by semantic signature
     def sole_writer(owner, fld, rule):
@@ -262,3 +262,12 @@ def run(ctx):
         ok = bool(g) and A.must_pass(h, [a.switch[0] for a in g])[0]
         ctx.inst("C02.R5", "close-guard/" + nm, ok, "close_bank fails unless %s (checked on every successful path)" % nm, [a.describe() for a in atoms][:6] if not g else "ok", h.bloc(ev[0]) if ev else None)
     ctx.floor("C02.R5", 4)
+
+
+def run(ctx):
+    from .kernels import check_kernels
+    try:
+        _run(ctx)
+    finally:
+        # numeric kernels this property's formulas rest on, pinned as canonical expression trees
+        check_kernels(ctx, "C02.K", ['is_zero_with_tolerance'])
